@@ -173,9 +173,19 @@ def strip_coq_comments(txt):
 
 
 def coq_ensure_makefile():
-    mk = os.path.join(COQ, "Makefile")
+    """_CoqProject is generated: every .v under coq/ except Extract/ (those are compiled
+    by ocaml_build in a scratch directory) and scratch/."""
+    files = []
+    for dp, dns, fns in os.walk(COQ):
+        dns[:] = sorted(d for d in dns if d not in ("Extract", "scratch"))
+        for fn in sorted(fns):
+            if fn.endswith(".v"):
+                files.append(os.path.relpath(os.path.join(dp, fn), COQ))
+    txt = "-Q . OxiVerif\n" + "".join(f + "\n" for f in sorted(files))
     proj = os.path.join(COQ, "_CoqProject")
-    if not os.path.exists(mk) or os.path.getmtime(mk) < os.path.getmtime(proj):
+    mk = os.path.join(COQ, "Makefile")
+    if not os.path.exists(proj) or open(proj).read() != txt or not os.path.exists(mk):
+        open(proj, "w").write(txt)
         rc, out = sh("coq_makefile -f _CoqProject -o Makefile", cwd=COQ)
         if rc != 0:
             raise CheckFailure("coq_makefile failed:\n" + out)
